@@ -4,6 +4,8 @@ import (
 	"math/big"
 	"strconv"
 
+	"github.com/shopspring/decimal"
+
 	pbsubstreams "github.com/streamingfast/substreams/pb/sf/substreams/v1"
 	sym "github.com/streamingfast/substreams/zz_verifsym"
 	"go.uber.org/zap"
@@ -31,8 +33,41 @@ const (
 	vPolMinFloat64
 	vPolMaxFloat64
 	vPolSetSumFloat64
+	vPolAddBigDecimal
+	vPolMinBigDecimal
+	vPolMaxBigDecimal
+	vPolSetSumBigDecimal
 	vPolCount
 )
+
+// bigdecimal (and its legacy alias bigfloat, BIGFLOAT=1) policies are explored
+// over a small concrete value set like the float64 ones: the decimal library is
+// executed natively on concrete operands. The third value has more than the 34
+// decimal places the host interface truncates add/min/max operands to.
+var vDecimals = []string{"1", "-2.5", "0.00000000000000000000000000000000001", "0", "10.25", "0.1"}
+
+// index of the value with more than 34 decimal places, and whether this run fed it
+// to a set_sum store (whose host call does not truncate its operand)
+const vDecimalBeyond34 = 2
+
+var vBeyond34 bool
+
+func vIsDecimal(p int) bool { return p >= vPolAddBigDecimal && p <= vPolSetSumBigDecimal }
+
+func vDec(i int) decimal.Decimal {
+	d, err := decimal.NewFromString(vDecimals[i])
+	if err != nil {
+		panic(err)
+	}
+	return d
+}
+
+func vDecimalType() string {
+	if sym.Param("BIGFLOAT", 0) == 1 {
+		return "bigfloat"
+	}
+	return "bigdecimal"
+}
 
 // float64 policies are explored over a small concrete value set (text
 // conversion of symbolic floats is not encodable); ordinals stay symbolic.
@@ -74,13 +109,21 @@ func vPolicy(p int) (pbsubstreams.Module_KindStore_UpdatePolicy, string) {
 		return pbsubstreams.Module_KindStore_UPDATE_POLICY_MAX, "float64"
 	case vPolSetSumFloat64:
 		return pbsubstreams.Module_KindStore_UPDATE_POLICY_SET_SUM, "float64"
+	case vPolAddBigDecimal:
+		return pbsubstreams.Module_KindStore_UPDATE_POLICY_ADD, vDecimalType()
+	case vPolMinBigDecimal:
+		return pbsubstreams.Module_KindStore_UPDATE_POLICY_MIN, vDecimalType()
+	case vPolMaxBigDecimal:
+		return pbsubstreams.Module_KindStore_UPDATE_POLICY_MAX, vDecimalType()
+	case vPolSetSumBigDecimal:
+		return pbsubstreams.Module_KindStore_UPDATE_POLICY_SET_SUM, vDecimalType()
 	}
 	panic("bad policy")
 }
 
 func vIsNumeric(p int) bool { return p >= vPolAddInt64 }
 func vIsSetSum(p int) bool {
-	return p == vPolSetSumInt64 || p == vPolSetSumBigInt || p == vPolSetSumFloat64
+	return p == vPolSetSumInt64 || p == vPolSetSumBigInt || p == vPolSetSumFloat64 || p == vPolSetSumBigDecimal
 }
 
 func vConfig(p int) *Config {
@@ -91,13 +134,14 @@ func vConfig(p int) *Config {
 
 // vOp is one store operation of the harness.
 type vOp struct {
-	del    bool   // delete_prefix
-	key    int    // index in vKeys / vPrefixes
-	ord    uint64 // arbitrary ordinal
-	val    []byte // bytes policies
-	num    int64  // numeric policies
+	del    bool    // delete_prefix
+	key    int     // index in vKeys / vPrefixes
+	ord    uint64  // arbitrary ordinal
+	val    []byte  // bytes policies
+	num    int64   // numeric policies
 	fnum   float64 // float64 policies
-	setTag bool   // set_sum: "set:" (true) or "sum:" (false)
+	dnum   int     // bigdecimal policies: index in vDecimals
+	setTag bool    // set_sum: "set:" (true) or "sum:" (false)
 }
 
 // vSymOp draws a symbolic operation for policy p.
@@ -110,7 +154,13 @@ func vSymOp(p int, allowDelete bool, valLen int) vOp {
 		return o
 	}
 	o.key = sym.Choice("key", len(vKeys))
-	if vIsFloat(p) {
+	if vIsDecimal(p) {
+		o.dnum = sym.Choice("decimal", sym.Param("DECIMALS", 5))
+		if vIsSetSum(p) {
+			vBeyond34 = vBeyond34 || o.dnum == vDecimalBeyond34
+			o.setTag = sym.Choice("settag", 2) == 1
+		}
+	} else if vIsFloat(p) {
 		o.fnum = vFloats[sym.Choice("float", sym.Param("FLOATS", len(vFloats)))]
 		if vIsSetSum(p) {
 			o.setTag = sym.Choice("settag", 2) == 1
@@ -168,6 +218,19 @@ func vRecord(s Store, p int, o vOp) {
 			tag = "set:"
 		}
 		s.SetSumFloat64(o.ord, k, []byte(tag+vFloatText(o.fnum)))
+	// as wasm.Call.DoAddBigDecimal / DoSetMin / DoSetMax: operands truncated to 34 places
+	case vPolAddBigDecimal:
+		s.SumBigDecimal(o.ord, k, vDec(o.dnum).Truncate(34))
+	case vPolMinBigDecimal:
+		s.SetMinBigDecimal(o.ord, k, vDec(o.dnum).Truncate(34))
+	case vPolMaxBigDecimal:
+		s.SetMaxBigDecimal(o.ord, k, vDec(o.dnum).Truncate(34))
+	case vPolSetSumBigDecimal: // as DoSetSumBigDecimal: the tagged text is passed as is
+		tag := "sum:"
+		if o.setTag {
+			tag = "set:"
+		}
+		s.SetSumBigDecimal(o.ord, k, []byte(tag+vDecimals[o.dnum]))
 	}
 }
 
@@ -181,10 +244,11 @@ func vSetSumText(o vOp) []byte {
 // vState is the reference model of a store: per key presence and typed value.
 type vState struct {
 	present [3]bool
-	val     [3][]byte // bytes policies
-	num     [3]int64  // numeric policies
-	fnum    [3]float64 // float64 policies
-	isSet   [3]bool   // set_sum: tag of the stored value
+	val     [3][]byte          // bytes policies
+	num     [3]int64           // numeric policies
+	fnum    [3]float64         // float64 policies
+	dnum    [3]decimal.Decimal // bigdecimal policies
+	isSet   [3]bool            // set_sum: tag of the stored value
 }
 
 func (st vState) clone() vState {
@@ -208,6 +272,7 @@ func (st *vState) apply(p int, o vOp) {
 				st.val[i] = nil
 				st.num[i] = 0
 				st.fnum[i] = 0
+				st.dnum[i] = decimal.Decimal{}
 				st.isSet[i] = false
 			}
 		}
@@ -281,6 +346,33 @@ func (st *vState) apply(p int, o vOp) {
 		default:
 			st.fnum[i] += o.fnum
 		}
+	case vPolAddBigDecimal:
+		d := vDec(o.dnum).Truncate(34)
+		if st.present[i] {
+			st.dnum[i] = st.dnum[i].Add(d)
+		} else {
+			st.present[i], st.dnum[i] = true, d
+		}
+	case vPolMinBigDecimal:
+		d := vDec(o.dnum).Truncate(34)
+		if !st.present[i] || d.Cmp(st.dnum[i]) < 0 {
+			st.present[i], st.dnum[i] = true, d
+		}
+	case vPolMaxBigDecimal:
+		d := vDec(o.dnum).Truncate(34)
+		if !st.present[i] || d.Cmp(st.dnum[i]) > 0 {
+			st.present[i], st.dnum[i] = true, d
+		}
+	case vPolSetSumBigDecimal:
+		d := vDec(o.dnum)
+		switch {
+		case !st.present[i]:
+			st.present[i], st.dnum[i], st.isSet[i] = true, d, o.setTag
+		case o.setTag:
+			st.dnum[i], st.isSet[i] = d, true
+		default:
+			st.dnum[i] = st.dnum[i].Add(d)
+		}
 	}
 }
 
@@ -307,7 +399,26 @@ func vSymPre(b *baseStore, p int, valLen int) vState {
 		}
 		st.present[i] = true
 		var stored []byte
-		if vIsFloat(p) {
+		if vIsDecimal(p) {
+			di := sym.Choice("pre-decimal", sym.Param("DECIMALS", 5))
+			st.dnum[i] = vDec(di)
+			if vIsSetSum(p) {
+				vBeyond34 = vBeyond34 || di == vDecimalBeyond34
+			} else {
+				// add/min/max stores only ever hold operands truncated by the host interface
+				st.dnum[i] = st.dnum[i].Truncate(34)
+			}
+			txt := st.dnum[i].String()
+			if vIsSetSum(p) {
+				st.isSet[i] = sym.Choice("pre-settag", 2) == 1
+				if st.isSet[i] {
+					txt = "set:" + txt
+				} else {
+					txt = "sum:" + txt
+				}
+			}
+			stored = []byte(txt)
+		} else if vIsFloat(p) {
 			st.fnum[i] = vFloats[sym.Choice("pre-float", sym.Param("FLOATS", len(vFloats)))]
 			txt := vFloatText(st.fnum[i])
 			if vIsSetSum(p) {
@@ -347,7 +458,13 @@ func vCheckRead(p int, st *vState, i int, got []byte, found bool, label string) 
 	if !found || !st.present[i] {
 		return
 	}
-	if vIsFloat(p) {
+	if vIsDecimal(p) {
+		d, err := decimal.NewFromString(string(got))
+		sym.Assert(err == nil, label+"-parses")
+		if err == nil {
+			sym.Assert(d.Cmp(st.dnum[i]) == 0, label+"-decimal")
+		}
+	} else if vIsFloat(p) {
 		f, err := strconv.ParseFloat(string(got), 64)
 		sym.Assert(err == nil, label+"-parses")
 		if err == nil {
